@@ -34,7 +34,7 @@ fn callee_body<const K: u8>(input: u32, p: &mut PlainParams, n: &mut u32) -> u32
     let value = input & 0xFFFF;
     p.h_mut().callee_seq += 1;
     let seq = p.h_mut().callee_seq;
-    log(Ev::SysBody { key: K, n: *n, input });
+    log(Ev::SysBody { key: K, n: *n, input, chg: p.tick.is_changed() });
     p.h_mut().callee_calls[K as usize % 3] += 1;
     let call = p.h_mut().callee_calls[K as usize % 3];
     let prog = p.h_mut().prog.clone();
